@@ -19,7 +19,8 @@ where the reflected collection is read; the model applies them up front (`visibl
 "the database object of that name is treated as absent" means operationally.
 
 Not modelled (stated in the harness as assumptions): dialect
-`correct_for_autogen_*` hooks, table/column comments (unsupported on SQLite), the version table.
+`correct_for_autogen_*` hooks, the version table.  Column comments are part of the `AlterColumnOp`
+(`Cmp.colDiffer`); table comments are `tableCommentG`.
 Iteration orders of Python sets are not modelled: ops are compared as multisets.
 -/
 namespace Model.Filter
@@ -33,6 +34,8 @@ structure Cmp where
   uqDiffer : Uq → Uq → Bool
   /-- `inspector.get_unique_constraints` is implemented -/
   supportsUq : Bool
+  /-- `_compare_table_comment` appends a create/drop_table_comment op (dialects with comments) -/
+  tableCommentDiffer : Key → Bool
 
 /-! ## name filters (`run_name_filters` call sites) -/
 
@@ -199,10 +202,16 @@ def tableRemoved (P : Cmp) (c : Tbl) : TGroup :=
   let td : ObjDesc := ⟨some c.name, .table, true, false, c.schema, c.name⟩
   (td, cmpIdxUq P c.key (some c) none ++ [(td, [⟨.dropTable, c.schema, c.name, some c.name, ""⟩])])
 
+/-- `_compare_table_comment`: no filter call of its own - the op is appended inside the table-level
+guard (compare.py:258) and targets the table; as a group it is guarded by that same descriptor -/
+def tableCommentG (P : Cmp) (c : Tbl) : List Group :=
+  [(⟨some c.name, .table, false, true, c.schema, c.name⟩,
+    if P.tableCommentDiffer c.key then [⟨.tableComment, c.schema, c.name, some c.name, ""⟩] else [])]
+
 def tableExisting (P : Cmp) (c m : Tbl) : TGroup :=
   (⟨some c.name, .table, false, true, c.schema, c.name⟩,
     colsAddedAltered P c.key c m ++ cmpIdxUq P c.key (some c) (some m) ++
-      cmpFks c.key c m ++ colsRemoved c.key c m)
+      cmpFks c.key c m ++ tableCommentG P c ++ colsRemoved c.key c m)
 
 /-- the distinct keys of a list, in order of first occurrence (a Python `set` of keys) -/
 def dedupKeys : List Key → List Key
